@@ -471,7 +471,11 @@ impl<'a, 'b> Plan<'a, 'b> {
                             }
                         }
                         Leaf::Drop => {
-                            if use_at {
+                            if use_at && self.ch.chance(1, 3) {
+                                // the sequence's instruction vector, edited directly
+                                b.instrs_mut().insert(pos, (Drop {}.into(), InstrLocId::default()));
+                                let _ = b.instrs().len();
+                            } else if use_at {
                                 b.drop_at(pos);
                             } else {
                                 b.drop();
